@@ -34,7 +34,8 @@ var pinFiles = map[string][]string{
 	"C13": {"fclient/request.go", "signing.go", "spec/servername.go", "keyring.go", "keys.go"},
 	"C14": {"authstate.go", "authchain.go", "load.go", "backfill.go"},
 	"C15": {"handlejoin.go", "handleleave.go", "handleinvite.go", "invite.go", "performjoin.go", "performinvite.go",
-		"eventauth.go:StateNeededForProtoEvent,accumulateStateNeeded,Tuples,AuthEventReferences,AddEvent",
+		"eventauth.go:StateNeededForProtoEvent,accumulateStateNeeded,Tuples,AuthEventReferences,AddEvent,NewAuthEvents,Valid,Clear",
+		"eventV1.go:Membership,StateKey,StateKeyEquals,Type,SenderID,RoomID,JoinRule",
 		"eventcrypto.go:getMXIDMapping,validateMXIDMappingSignatures"},
 	"C16": {"fclient/resolve.go", "fclient/well_known.go", "fclient/client.go", "fclient/dnscache.go", "spec/servername.go"},
 	"C17": {"spec/userid.go", "spec/roomid.go", "spec/servername.go", "spec/senderid.go", "spec/base64.go", "event.go", "eventV2.go:CheckFields", "eventV1.go:CheckFields", "event_builder.go", "eventversion.go"},
